@@ -291,7 +291,8 @@ class OperationGroup(ContextMixin, ContentMixin):
         signature_size = 96 if self.key.public_key_hash().startswith('tz4') else 64
         extra_size = 32 + signature_size  # size of serialized branch and signature + safe reserve
         num_contents = len(opg_with_metadata['contents'])
-        counter_offset = self.context.get_counter_offset()
+        # an explicit counter is taken as is (manual handling), pending operations are only added to the counters found on the node
+        counter_offset = self.context.get_counter_offset() if counter is None else 0
         opg.contents.clear()
 
         for idx, content in enumerate(opg_with_metadata['contents']):
